@@ -147,7 +147,10 @@ static Mirror K1 = { .loops = 0 }, K2 = { .loops = 1 };
 static Log logW, logF;
 
 static int kmous_hook;        /* answer key_mouse = ESC [ M */
+static int lib_kmous = -1;    /* term.c's own getstr hook already answers key_mouse = ESC [ M
+                               * (fixes/C20_terminfo_key_mouse.patch); found out once, see probe_lib_kmous() */
 
+/* hook given to the terminals through TickitTermBuilder.ti_hook */
 static const char *ti_getstr(const char *name, const char *value, void *data)
 {
   (void)data;
@@ -156,6 +159,15 @@ static const char *ti_getstr(const char *name, const char *value, void *data)
   return value;
 }
 static const struct TickitTerminfoHook ti_hook = { .getstr = ti_getstr, .data = NULL };
+
+/* hook given to the harness' own TermKey instances: what term.c's getstr_hook chain answers for a terminal
+ * without an input fd */
+static const char *ti_getstr_mirror(const char *name, const char *value, void *data)
+{
+  if(lib_kmous > 0 && strcmp(name, "key_mouse") == 0)
+    value = "\x1b[M";
+  return ti_getstr(name, value, data);
+}
 
 static TickitTerm *mk_term(Log *log, int utf8)
 {
@@ -183,10 +195,26 @@ static TermKey *mk_termkey(int utf8)
   TermKey *tk = termkey_new(-1, TERMKEY_FLAG_EINTR | TERMKEY_FLAG_NOSTART | flags);
   if(keep) { setenv("TERM", keep, 1); free(keep); } else unsetenv("TERM");
   if(!tk) { fprintf(stderr, "termkey_new failed\n"); exit(3); }
-  termkey_hook_terminfo_getstr(tk, ti_getstr, NULL);
+  termkey_hook_terminfo_getstr(tk, ti_getstr_mirror, NULL);
   termkey_start(tk);
   termkey_set_canonflags(tk, termkey_get_canonflags(tk) | TERMKEY_CANON_DELBS);
   return tk;
+}
+
+/* The harness' TermKey instances must be configured like the terminal's.  Whether term.c overrides terminfo's
+ * key_mouse cannot be asked; it shows: with the override an SGR press report is one mouse event, without it (and
+ * with terminfo's kmous = CSI <) libtermkey reads `CSI < 0 ; 1` as an X10 report and the rest as text. */
+static void probe_lib_kmous(void)
+{
+  Log probe = { 0 };
+  int saved = kmous_hook;
+  kmous_hook = 0;
+  TickitTerm *tt = mk_term(&probe, 1);
+  tickit_term_input_push_bytes(tt, "\x1b[<0;1;1M", 9);
+  lib_kmous = probe.s && strcmp(probe.s, " m:1:1:0:0:0") == 0;
+  tickit_term_unref(tt);
+  free(probe.s);
+  kmous_hook = saved;
 }
 
 static void teardown_all(void)
@@ -201,6 +229,7 @@ static void teardown_all(void)
 static void build_all(int utf8)
 {
   teardown_all();
+  if(lib_kmous < 0) probe_lib_kmous();
   log_clear(&logW); log_clear(&logF); log_clear(&K1.log); log_clear(&K2.log);
   W = mk_term(&logW, utf8);
   F = mk_term(&logF, utf8);
